@@ -572,7 +572,7 @@ fn main() {
         ctx.finish_replay(acc);
     }
     let thorough = !ctx.quick();
-    let string_maxlen: u32 = ctx.pick(6, 7);
+    let string_maxlens: [u32; 4] = ctx.pick([6, 5, 5, 5], [7, 7, 7, 7]);
     let wide_nodes: usize = ctx.pick(2, 3);
 
     if std::env::var("C07_COUNTS").is_ok() {
@@ -736,7 +736,7 @@ fn main() {
 
     // X1..X4: \expandafter / \noexpand strings, three-way
     for (k, xe) in xenvs.iter().enumerate() {
-        let maxlen = string_maxlen;
+        let maxlen = string_maxlens[k];
         let a = xe.alphabet.len() as u64;
         let n = vcore::strings_upto(a, maxlen) - 1;
         ctx.family(
@@ -818,7 +818,7 @@ fn main() {
                         toks.extend_from_slice(&mref[*item as usize]);
                     }
                 }
-                check_string(i, xe, 2, &toks, false, toks.len() > string_maxlen as usize, acc);
+                check_string(i, xe, 2, &toks, false, toks.len() > string_maxlens[2] as usize, acc);
                 acc.count("structured_expandafter_programs");
                 if i % 20_011 == 5 {
                     acc.sample(i, || json!({"program": format!("{}{}", xe.preamble, text_of(&toks))}));
